@@ -979,6 +979,10 @@ pub enum ScriptMode {
     WeakEscape,
     /// a destructor lets one of its stored handles escape; it is cloned after the collection (C16)
     DeadCloneLate,
+    /// the clone happens while another member's destructor panic is unwinding (C16)
+    DeadClonePanic,
+    /// the destructor first downgrades the dead peer handle, drops that Weak, then clones (C16)
+    DeadCloneAfterWeak,
 }
 
 fn split_build_and_drops(ops: Vec<Op>) -> (Vec<Op>, Vec<Op>) {
@@ -1054,11 +1058,31 @@ fn stored_targets(ops: &[Op], n_total: usize) -> Vec<Vec<usize>> {
 }
 
 pub fn script_ops(idx: u64, seed: u64, mode: ScriptMode) -> (Vec<Op>, String) {
+    script_ops_ex(idx, seed, mode, false)
+}
+
+/// `elide`: some stored handles of the base shape are taken out and dropped without unadopt
+/// before the scripts are attached (stale records; the documentation allows it).
+pub fn script_ops_ex(idx: u64, seed: u64, mode: ScriptMode, elide: bool) -> (Vec<Op>, String) {
     let mut rng = Rng::new(crate::rng::mix(seed ^ 0x5C21, idx));
-    let full = matches!(mode, ScriptMode::DeadClone | ScriptMode::DeadDrop | ScriptMode::DeadCloneLate) || rng.chance(1, 2) || (mode == ScriptMode::WeakEscape && rng.chance(2, 3));
+    let full = matches!(mode, ScriptMode::DeadClone | ScriptMode::DeadDrop | ScriptMode::DeadCloneLate | ScriptMode::DeadClonePanic | ScriptMode::DeadCloneAfterWeak) || rng.chance(1, 2) || (mode == ScriptMode::WeakEscape && rng.chance(2, 3));
     let (mut build, drops, n, bdesc) = base_shape(&mut rng, idx, seed, full);
-    let (mut hslots, mut wslots) = count_slots(&build);
     let mut desc = bdesc;
+    if elide {
+        let held = stored_targets(&build, n);
+        let mut taken = 0;
+        for o in 0..n {
+            let mut len = held[o].len();
+            while len > 0 && taken < 3 && rng.chance(1, 3) {
+                build.push(Op::Take(o as ObjId, len - 1));
+                build.push(Op::Drop(crate::ops::rel(0)));
+                len -= 1;
+                taken += 1;
+            }
+        }
+        desc = format!("{} elided-takes={}", desc, taken);
+    }
+    let (mut hslots, mut wslots) = count_slots(&build);
     match mode {
         ScriptMode::Reentrant => {
             // bystanders: Z (id n), ZZ (id n+1); second group G = {n+2, n+3} ring, one outside handle left
@@ -1172,6 +1196,28 @@ pub fn script_ops(idx: u64, seed: u64, mode: ScriptMode) -> (Vec<Op>, String) {
                 let k = rng.below(held[a].len());
                 build.push(Op::Script(a as ObjId, When::Pre, Box::new(Op::EscapeOwn(k))));
                 desc = format!("DeadCloneLate: #{} lets stored handle {} (-> #{}) escape {}", a, k, held[a][k], desc);
+            }
+        }
+        ScriptMode::DeadClonePanic | ScriptMode::DeadCloneAfterWeak => {
+            let held = stored_targets(&build, n);
+            let cands: Vec<usize> = (0..n).filter(|&i| !held[i].is_empty()).collect();
+            if let Some(&a) = rng.pick(&cands) {
+                let k = rng.below(held[a].len());
+                if mode == ScriptMode::DeadClonePanic {
+                    // whichever other member is destroyed first panics (the action is valid once);
+                    // the acting member then runs while that panic unwinds
+                    for i in 0..n {
+                        if i != a {
+                            build.push(Op::Script(i as ObjId, When::Pre, Box::new(Op::Panic)));
+                        }
+                    }
+                    build.push(Op::Script(a as ObjId, When::Pre, Box::new(Op::CloneDead(k))));
+                } else {
+                    build.push(Op::Script(a as ObjId, When::Pre, Box::new(Op::DowngradeOwn(k))));
+                    build.push(Op::Script(a as ObjId, When::Pre, Box::new(Op::DropWeak(crate::ops::rel(0)))));
+                    build.push(Op::Script(a as ObjId, When::Pre, Box::new(Op::CloneDead(k))));
+                }
+                desc = format!("{:?} by #{} on stored handle {} (-> #{}) {}", mode, a, k, held[a][k], desc);
             }
         }
         ScriptMode::DeadClone | ScriptMode::DeadDrop => {
